@@ -245,6 +245,7 @@ def run_instance(modname, obname, prop, params, cfg):
         instr.STUBS.clear()
         instr.reset_hash_ufs()
         instr.HASH_INJECTIVE = False
+        core.ABSTRACT_BITS = None
         return ob.fn(ex, **params)
 
     try:
